@@ -28,7 +28,8 @@ Inductive act :=
 | ARaise (ty : string) (tag : nat)(* built-in raise, zero delay *)
 | ABadBuiltin (k : nat)           (* built-in whose params callable raises *)
 | AEmit (k : nat)                 (* built-in emit of event EM<k>: reaches the typed, then the wildcard listener *)
-| ASlow (k : nat) (d : nat).      (* user action: records, then takes d ms (awaits / blocks) while timers keep running *)
+| ASlow (k : nat) (d : nat)
+| ADel (k : nat) (v : nat).       (* user action: records, then deletes context key v *)      (* user action: records, then takes d ms (awaits / blocks) while timers keep running *)
 
 Inductive target := TNone | TState (s : nat) | TUnresolvable.
 
